@@ -504,6 +504,38 @@ pub fn scenario(g: &mut Gen, k: u64) {
                     }
                 }
             }
+            // clashes ACROSS kinds: an element of another kind with the same name, made in another package, is copied
+            // into this ELEMENTS container: the path /p1/<base> is taken whatever the kind of the element there
+            if let Some(el2) = elements_of(g, 0, "p1x") {
+                let other_kinds: Vec<&str> = ELEMENT_KINDS.iter().copied().filter(|k| *k != kind).collect();
+                if !other_kinds.is_empty() {
+                    let k2 = other_kinds[g.rng.below(other_kinds.len() as u64) as usize];
+                    if let Some(y) = ok_h(&g.push(Op::CreateNamed(el2, n.elidx(k2), base.as_bytes().to_vec()))) {
+                        enrich(g, y, 0xffff_ffff, 3);
+                        g.push(Op::Copy(el, y));
+                        if g.rng.below(2) == 0 {
+                            g.push(Op::Copy(el, y));
+                        }
+                    }
+                }
+            }
+            // ... and across containers: a sub-package /p1/<base> next to the element /p1/<base>
+            let pkg = g.ex.handles[el].parent().ok().flatten().and_then(|p| g.ex.hidx.get(&p).copied());
+            let rk = g.ex.hidx.get(&g.ex.models[0].root_element()).copied();
+            if let (Some(pkg), Some(rk)) = (pkg, rk) {
+                if let Some(pks) = ok_h(&g.push(Op::GetOrCreate(rk, n.elidx("AR-PACKAGES")))) {
+                    if let Some(sp) = ok_h(&g.push(Op::CreateNamed(pks, n.elidx("AR-PACKAGE"), base.as_bytes().to_vec()))) {
+                        if let Some(sub) = ok_h(&g.push(Op::GetOrCreate(pkg, n.elidx("AR-PACKAGES")))) {
+                            g.push(Op::Copy(sub, sp));
+                            if g.rng.below(2) == 0 {
+                                // the other direction: the sub-package is there first, an element of that name is copied in
+                                g.push(Op::Copy(sub, sp));
+                                g.push(Op::Copy(el, x));
+                            }
+                        }
+                    }
+                }
+            }
         }
         3 => {
             // references: a package that contains a reference and its target is copied next to itself and into another model
@@ -789,6 +821,7 @@ enum XItem {
 #[derive(Clone, PartialEq, Debug)]
 struct XNode {
     name: ElementName,
+    ty: ElementType,
     attrs: Vec<(AttributeName, String)>,
     comment: Option<String>,
     content: Vec<XItem>,
@@ -807,6 +840,7 @@ fn value_ok(cd: &CharacterData, spec: &CharacterDataSpec, ver: u32) -> bool {
 fn actual(e: &Element) -> XNode {
     XNode {
         name: e.element_name(),
+        ty: e.element_type(),
         attrs: e.attributes().map(|a| (a.attrname, show_cdata(&a.content))).collect(),
         comment: e.comment(),
         content: e
@@ -850,7 +884,7 @@ fn expected(src: &Element, ty: ElementType, ver: u32, by_dest: bool) -> Option<X
             }
         }
     }
-    Some(XNode { name: src.element_name(), attrs, comment: src.comment(), content })
+    Some(XNode { name: src.element_name(), ty, attrs, comment: src.comment(), content })
 }
 
 fn chain_text(e: &Element) -> Option<(String, String)> {
@@ -1187,6 +1221,8 @@ fn oracle_script(names: &Names, script: usize, probes: Vec<String>, ops: &[Op], 
                 // (x) exactly the permitted parts (both for same and cross version)
                 let exp_d = pc.exp_dest.clone().map(&rename);
                 let exp_s = pc.exp_src.clone().map(&rename);
+                // the pair (types of the copy, content of the copy) has to follow ONE reading: types and filter by the
+                // destination (the specification), or — today's library, known finding — types and filter of the source
                 if exp_d.as_ref() != Some(&act) {
                     if exp_s.as_ref() == Some(&act) {
                         fd.fail(script, opi, "FILTER-BY-SOURCE-TYPE", format!("op=[{}] src={} the copy is filtered by the type of the source element, not by its type in the destination", op.line(), pc.src.element_name()));
@@ -1266,6 +1302,24 @@ fn oracle_script(names: &Names, script: usize, probes: Vec<String>, ops: &[Op], 
                     if let Some(v) = schema_loc {
                         if root.attribute_value(AttributeName::xsiSchemalocation).as_ref() != Some(&v) {
                             let _ = root.set_attribute(AttributeName::xsiSchemalocation, v);
+                        }
+                    }
+                }
+                // sort() of the copy: never panics (every sub-element is known to the type of its parent) and keeps
+                // every element
+                {
+                    fn size(x: &XNode) -> usize {
+                        1 + x.content.iter().map(|i| if let XItem::E(e) = i { size(e) } else { 1 }).sum::<usize>()
+                    }
+                    let before_sort = size(&actual(&copy));
+                    let c2 = copy.clone();
+                    match guard(move || c2.sort()) {
+                        Err(msg) => fd.fail(script, opi, "COPY-SORT-PANIC", format!("op=[{}] sort() of the copied {} panics: {}", op.line(), copy.element_name(), msg.chars().take(120).collect::<String>().replace(' ', "_"))),
+                        Ok(()) => {
+                            fd.count("copy_sort_checks");
+                            if size(&actual(&copy)) != before_sort {
+                                fd.fail(script, opi, "COPY-SORT-LOSS", format!("op=[{}] sort() of the copied {} changes the number of items", op.line(), copy.element_name()));
+                            }
                         }
                     }
                 }
